@@ -18,3 +18,6 @@ Proof. split; reflexivity. Qed.
 
 Lemma bridge_flows : gen_flows = model_flows.
 Proof. reflexivity. Qed.
+
+Lemma bridge_sampler_draw : gen_sampler_draw_is_transcribed = true.
+Proof. reflexivity. Qed.
